@@ -149,7 +149,9 @@ def run(ck):
                "cutoff, Nthermo, source, history); non-trivial = at least 2 omega1 classes; history tier (corpus fcc, bcc, honeycomb + "
                "first pool crystals): the same StarSet asked for omega1/omega2, regenerated to a larger/smaller range and asked "
                "again, and VacancyMediated(...,1).generate(2).generate(1); each later answer judged like a fresh one and "
-               "compared with a freshly built object")
+               "compared with a freshly built object; chiral corpus (p4, p3, p6, P4/m, P4, P3, P-3, P6/m, m-3: rotation axis without "
+               "mirrors, spectator species on a general-position orbit, 1st+2nd in-plane neighbour jumps) where reversal is not "
+               "implied by the group")
     ck.trusted += ["harness/starcase.py, c26.py: integer lattice view of jump network / space group / displacements (1e-8)",
                    "crys.G is the space group (C18); crys.jumpnetwork is complete and closed under reversal (C21)"]
     ck.theorems()
@@ -183,15 +185,26 @@ def run(ck):
                    for cl, t in zip(jn_, jt_))
 
     # fixed corpus first (fcc and bcc: the stale-cache orderings differ between ranges), then the random pool
-    corpus = [(nm,) + gen.named(nm) for nm in ("fcc", "bcc", "honeycomb")]
+    corpus = [(nm,) + gen.named(nm) + (None,) for nm in ("fcc", "bcc", "honeycomb")]
+    # crystals with a 3-/4-/6-fold axis but no mirror containing it and no perpendicular two-fold (p4, p3, p6, P4/m, P4, P3, P-3,
+    # P6/m, m-3): a swing jump between two rotation-related states of one star is not mapped onto its reverse by any
+    # operation, so closure under reversal is not implied by closure under the group.  quick: a fixed + a random selection
+    chiral = list(sc.CHIRAL2 + sc.CHIRAL3) if not ck.quick else ["p4", "p3", "P4/m", "m-3", rng.choice(["p6", "P4", "P3", "P-3", "P6/m"])]
+    for nm in chiral:
+        c_, chem_, order_, cut_ = sc.chiral_crystal(nm)
+        if len(c_.G) != order_:
+            raise RuntimeError("chiral corpus crystal %s has a point group of order %d, expected %d" % (nm, len(c_.G), order_))
+        corpus.append(("chiral-" + nm, c_, chem_, cut_))
     ncr = 0
-    for label, crys, chem in itertools.chain(corpus, gen.pool(rng, ncrys, random_frac=0.55)):
+    for label, crys, chem, fixedcut in itertools.chain(corpus, ((a, b, c, None) for a, b, c in gen.pool(rng, ncrys, random_frac=0.55))):
         ncr += 1
         in_corpus = ncr <= len(corpus)
+        light = ck.quick and label.startswith("chiral-")     # quick: Nthermo = 1 only, one history sequence
         try:
             if in_corpus:
                 sh = gen.shells(crys, chem)
-                cut = sh[0] + 1e-4; sl = crys.sitelist(chem); jn = crys.jumpnetwork(chem, cut)   # nearest-neighbour network
+                cut = fixedcut if fixedcut is not None else sh[0] + 1e-4     # nearest-neighbour network unless given
+                sl = crys.sitelist(chem); jn = crys.jumpnetwork(chem, cut)
             else:
                 net = gen.percolating_network(crys, chem, rng, maxjumps=ck.n(30, 60))
                 if net is None:
@@ -269,7 +282,7 @@ def run(ck):
 
         freshvm = {}
         vmcap = max(vm_max_states, 270) if in_corpus else vm_max_states
-        for Nth in (1, 2):
+        for Nth in ((1,) if light else (1, 2)):
             # (a) the StarSet methods, unpruned
             origin = rng.random() < 0.7
             try:
@@ -299,6 +312,7 @@ def run(ck):
             big3 = crystalStars.StarSet(jn, crys, chem, 3, originstates=True).Nstates <= ck.n(270, 520)
             seqs = [[2, 3, 2], [1, 2, 1]] if big3 else [[1, 2, 1, 2]]
             seqs.append([rng.choice([1, 2, 3] if big3 else [1, 2]) for _ in range(3)])
+            if light: seqs = [[1, 2, 1]]
             for seq in seqs:
                 o = rng.random() < 0.7
                 hinfo = {"history": seq, "route": "StarSet.generate + jumpnetwork_omega1/2 on one object"}
